@@ -787,6 +787,56 @@ def build_unit(name, template_text, sources, read_template=None):
             lines.extend(gl)
             items.append((spec, it, first, len(lines)))
             idx += 1
+    # RC: a constant that an extracted function names but the unit does not define is taken verbatim from the crate (a
+    # refactoring that gives a literal a name must not cost the proof; a wrong value then fails the contract, as it should).
+    # Only primitive-typed constants, and only when every module-level constant of that name in the crate has one value.
+    have = '\n'.join(l.text for l in lines)
+    used = {}
+    for spec_i, it_i, first, last in items:
+        for l in lines[first - 1:last]:
+            if l.origin[0] == 'src':
+                for nm in re.findall(r'(?<![A-Za-z0-9_:.])[A-Z][A-Z0-9]*(?:_[A-Z0-9]+)+(?![A-Za-z0-9_(!<])', mask(l.text)):
+                    used.setdefault(nm, spec_i.crate)
+    auto = []
+    for nm, crate in sorted(used.items()):
+        if re.search(r'(?<![A-Za-z0-9_])(?:const|static)\s+%s\s*:' % re.escape(nm), have):
+            continue
+        src = sources[crate]
+        cands = []
+
+        def walk(parent, path):
+            for c in src.children(parent):
+                if c.kind == 'mod' and c.name:
+                    walk(c, path + ['mod ' + c.name])
+                elif c.kind == 'const' and c.name == nm:
+                    cands.append((path, c))
+        walk(None, [])
+        ok = [(pth, c) for pth, c in cands
+              if re.search(r'const\s+%s\s*:\s*(u8|u16|u32|u64|u128|usize|i8|i16|i32|i64|isize|bool|char)\s*=' % re.escape(nm), src.item_text(c))]
+        vals = {norm(re.search(r'=\s*([^;]*);', src.item_text(c)).group(1)) for pth, c in ok}
+        if len(ok) != len(cands) or len(vals) != 1:
+            continue
+        pth, c = ok[0]
+        sub = ItemSpec(crate, ' > '.join(pth + ['const ' + nm]), 0)
+        sub.indent = ''
+        try:
+            gl, item = build_item(src, sub, idx, log)
+        except ExtractError:
+            continue
+        idx += 1
+        auto.append((sub, item, gl))
+        log['rewrites'].append({'rule': 'RC', 'item': '%s :: %s' % (crate, sub.path), 'count': 1,
+                                'note': 'constant named by an extracted function, taken verbatim from the crate'})
+    if auto:
+        k = len(lines) - 1
+        while k >= 0 and not lines[k].text.startswith('} // verus!'):
+            k -= 1
+        if k < 0:
+            raise ExtractError('template has no `} // verus!` line')
+        for sub, item, gl in auto:
+            lines[k:k] = gl
+            items.append((sub, item, k + 1, k + len(gl)))
+            k += len(gl)
     # declarations generated by rewrite rules (R9) go right before the end of the verus! block
     have = '\n'.join(l.text for l in lines)
     decls = [d for d in log.get('decls', [])
